@@ -50,8 +50,14 @@ REC = {"on": False, "events": [], "lock": threading.Lock(), "ctr": itertools.cou
 TL = threading.local()
 
 
+UIDS = itertools.count(1)
+
+
 def stamp(kind, *info):
-    REC["events"].append((next(REC["ctr"]), threading.get_ident(), kind) + info)
+    u = getattr(TL, "uid", None)        # one number per thread OBJECT (thread idents are reused once a thread has exited)
+    if u is None:
+        u = TL.uid = next(UIDS)
+    REC["events"].append((next(REC["ctr"]), u, kind) + info)
 
 
 class RecList(list):
@@ -340,7 +346,9 @@ class C09(Suite):
             "requests, optionally one session ending in a malformed frame; exhaustive pairs of request shapes for "
             "two sessions first, then seeded random cases and bundle-only cases; session threads run under their default "
             "names or all under ONE common Thread name; parser locks optionally polite (a releasing thread lets a "
-            "waiter in); the interleaving is whatever the OS/GIL produced under "
+            "waiter in); peers are ephemeral 127.0.0.1 ports or explicit look-alike source addresses (127.0.0.1:2NNNN / "
+            "127.0.0.12:NNNN, one port on several hosts, adjacent ports) with every second such session ending "
+            "early; the interleaving is whatever the OS/GIL produced under "
             "switch intervals 1e-6..5e-3 with injected yields, and is recorded.  evaluations = cases (concurrent "
             "runs); distinct_nontrivial = requests that were in flight together with a conflicting request "
             "(same tag, overlapping elements, at least one a write) of another session")
@@ -479,6 +487,25 @@ class C09(Suite):
                 "fuzz": rng.choice([0.0, 0.005, 0.01, 0.02]), "nap": rng.choice([0.003, 0.01]),
                 "fuzz_store": rng.choice([0.0, 0.05, 0.15]),
                 "thread_name": rng.choice([None, "enip", "enip"]), "polite": rng.choice([0.0, 0.5, 1.0]),
+                "peers": rng.choice([None, None, "concat", "sameport", "samehost-adjacent"]),
+                "seed": rng.randrange(1 << 30)}
+
+    def peer_case(self, rng, tier):
+        """2..6 raw sessions whose peer addresses look alike (host+port spelling the same digits, one port on
+        several hosts, adjacent ports), every second one ending early while its look-alike goes on: a session
+        ending must not disturb any other session, whatever the peers' addresses"""
+        nsess = rng.choice([2, 2, 4, 6])
+        tags = self.layout(rng, nsess)
+        per = rng.choice([8, 12]) if tier == "quick" else rng.choice([12, 24, 40])
+        sessions = []
+        for sid in range(nsess):
+            n = per if sid % 2 == 0 else rng.randint(1, max(1, per // 4))
+            frames = [self.rand_frame(rng, tags, sid, k) for k in range(n)]
+            sessions.append({"client": "raw", "frames": frames, "chaos": None, "depth": 1})
+        return {"budget": 488, "tags": tags, "sessions": sessions, "si": rng.choice([1e-5, 1e-4, 5e-3]),
+                "yield": rng.random() < 0.5, "fuzz": 0.0, "nap": 0.003, "fuzz_store": 0.0,
+                "thread_name": rng.choice([None, "enip"]), "polite": rng.choice([0.0, 0.5]),
+                "peers": rng.choice(["concat", "concat", "sameport", "samehost-adjacent"]),
                 "seed": rng.randrange(1 << 30)}
 
     def storm_case(self, rng, tier):
@@ -522,26 +549,31 @@ class C09(Suite):
         for a in range(n):
             for b in range(n):
                 sess = []
+                peers = "concat" if (a + b) % 3 == 1 else None
                 for sid, sh in ((0, a), (1, b)):
-                    sess.append({"client": "raw", "chaos": None,
-                                 "frames": [shapes(sid)[sh](k) for k in range(5)]})
+                    sess.append({"client": "raw", "chaos": None,       # with look-alike peers, session 1 ends early
+                                 "frames": [shapes(sid)[sh](k) for k in range(2 if (peers and sid) else 5)]})
                 yield {"budget": 488, "tags": [dict(tag)], "sessions": sess, "si": 1e-6, "yield": True,
                        "fuzz": [0.0, 0.01, 0.02][(a + b) % 3], "nap": 0.005, "fuzz_store": [0.1, 0.0, 0.05][(a * 2 + b) % 3],
                        "thread_name": "enip" if (a + b) % 2 == 0 else None, "polite": [1.0, 0.0, 0.5][(a + 2 * b) % 3],
+                       "peers": peers,
                        "seed": a * n + b}
 
     def cases(self, tier, rng):
         for c in self.pair_cases():
             yield c
-        n = 30 if tier == "quick" else 190
+        n = 28 if tier == "quick" else 180
         for i in range(n):
             if i % 5 == 0:
                 yield self.storm_case(rng, tier)
+            if i % 5 == 2:
+                yield self.peer_case(rng, tier)
             yield self.rand_case(rng, tier)
 
     def search_cases(self, tier, rng):
         while True:
             yield self.storm_case(rng, "thorough")
+            yield self.peer_case(rng, "thorough")
             yield self.rand_case(rng, "thorough")
 
     # ------------------------------------------------------------------ running the real thing
@@ -565,11 +597,17 @@ class C09(Suite):
                 raise RuntimeError("simulator did not start")
         return th, ctl
 
-    def raw_session(self, port, sid, sess, encoded, out, barrier):
+    def raw_session(self, port, sid, sess, encoded, out, barrier, bound=None):
         try:
-            s = socket.create_connection(("127.0.0.1", port), timeout=20)
+            if bound is not None:           # a socket already bound to the peer address the case asks for
+                s = bound
+                s.settimeout(20)
+                s.connect(("127.0.0.1", port))
+            else:
+                s = socket.create_connection(("127.0.0.1", port), timeout=20)
             s.setsockopt(socket.IPPROTO_TCP, socket.TCP_NODELAY, 1)
             out["port"] = s.getsockname()[1]
+            out["peer"] = list(s.getsockname()[:2])
             barrier.wait(timeout=20)
             s.sendall(enip_frame(0x65, 0, b"register", struct.pack("<HH", 1, 0)))
             r = recv_frame(s)
@@ -580,11 +618,14 @@ class C09(Suite):
             depth = max(1, int(sess.get("depth", 1)))      # requests in flight on this connection
             sent = 0
             for k in range(len(encoded)):
-                while sent < len(encoded) and sent < k + depth:
-                    s.sendall(rrdata(handle, struct.pack("<II", sid, sent), encoded[sent]))
-                    sent += 1
-                ctx = struct.pack("<II", sid, k)
-                r = recv_frame(s)
+                try:
+                    while sent < len(encoded) and sent < k + depth:
+                        s.sendall(rrdata(handle, struct.pack("<II", sid, sent), encoded[sent]))
+                        sent += 1
+                    ctx = struct.pack("<II", sid, k)
+                    r = recv_frame(s)
+                except (ConnectionResetError, BrokenPipeError):      # the simulator closed the connection
+                    r = None
                 if r is None:
                     out["replies"].append(None)
                     out["closed_at"] = k
@@ -618,6 +659,7 @@ class C09(Suite):
         try:
             with m["client"].connector(host="127.0.0.1", port=port, timeout=20.0) as conn:
                 out["port"] = conn.conn.getsockname()[1]
+                out["peer"] = list(conn.conn.getsockname()[:2])
                 out["handle"] = conn.session
                 barrier.wait(timeout=20)
                 for k, fr in enumerate(sess["frames"]):
@@ -638,6 +680,63 @@ class C09(Suite):
         except Exception as exc:  # noqa
             out["error"] = type(exc).__name__ + ":" + str(exc)[:120]
 
+    @staticmethod
+    def bind_peers(case):
+        """Sockets bound to the peer addresses the case asks for (all of 127/8 is loopback).  `peers`:
+          "concat"    sessions 2i, 2i+1 come from 127.0.0.1:2NNNN and 127.0.0.12:NNNN (host+port spell the same digits)
+          "sameport"  all sessions come from the same port NNNN of different hosts 127.0.0.(10+sid)
+          "samehost-adjacent"  consecutive ports of one host
+        Different peers, however alike their addresses look, are different sessions.  -> {sid: socket}"""
+        kind = case.get("peers")
+        if not kind:
+            return {}
+        rng = random.Random(case.get("seed", 0) ^ os.getpid())
+        raw = [sid for sid, s_ in enumerate(case["sessions"]) if s_["client"] == "raw"]
+
+        def bind(host, port):
+            s = socket.socket(socket.AF_INET, socket.SOCK_STREAM)
+            s.setsockopt(socket.SOL_SOCKET, socket.SO_REUSEADDR, 1)
+            try:
+                s.bind((host, port))
+                return s
+            except OSError:
+                s.close()
+                return None
+
+        out = {}
+        if kind == "concat":
+            for a, b in zip(raw[0::2], raw[1::2]):
+                for _ in range(50):
+                    n = rng.randint(1100, 9999)
+                    sa, sb = bind("127.0.0.1", 20000 + n), bind("127.0.0.12", n)
+                    if sa and sb:
+                        out[a], out[b] = sa, sb
+                        break
+                    for x in (sa, sb):
+                        if x:
+                            x.close()
+        elif kind == "sameport":
+            for _ in range(50):
+                n = rng.randint(11000, 29999)
+                socks = [bind(f"127.0.0.{10 + sid}", n) for sid in raw]
+                if all(socks):
+                    out = dict(zip(raw, socks))
+                    break
+                for x in socks:
+                    if x:
+                        x.close()
+        elif kind == "samehost-adjacent":
+            for _ in range(50):
+                n = rng.randint(11000, 29000)
+                socks = [bind("127.0.0.1", n + i) for i, _sid in enumerate(raw)]
+                if all(socks):
+                    out = dict(zip(raw, socks))
+                    break
+                for x in socks:
+                    if x:
+                        x.close()
+        return out
+
     def run_clients(self, case, port, encoded):
         """the client sessions run in a forked child process (threads there), so that the simulator's threads
         have this interpreter to themselves and clients and server run truly in parallel"""
@@ -652,11 +751,13 @@ class C09(Suite):
                 sys.setswitchinterval(0.005)
                 outs = [{"replies": []} for _ in case["sessions"]]
                 barrier = threading.Barrier(len(case["sessions"]))
+                bound = self.bind_peers(case)
                 ths = []
                 for sid, sess in enumerate(case["sessions"]):
                     if sess["client"] == "raw":
                         t = threading.Thread(target=self.raw_session,
-                                             args=(port, sid, sess, encoded[sid], outs[sid], barrier), daemon=True)
+                                             args=(port, sid, sess, encoded[sid], outs[sid], barrier, bound.get(sid)),
+                                             daemon=True)
                     else:
                         t = threading.Thread(target=self.cpppo_session, args=(port, sid, sess, outs[sid], barrier),
                                              daemon=True)
@@ -800,11 +901,11 @@ class C09(Suite):
             reps = [(r["cip"] if r and r["cip"] else "X") for r in o["replies"] if r is not None]
             lines.append(",".join(reps) if reps else "-")
         obs["replies_line"] = "^".join(lines)
-        obs["sessions"] = [{"port": o.get("port"), "handle": o.get("handle"), "replies": o["replies"],
+        obs["sessions"] = [{"port": o.get("port"), "peer": o.get("peer"), "handle": o.get("handle"), "replies": o["replies"],
                             "chaos": o.get("chaos"), "closed_at": o.get("closed_at")} for o in outs]
 
         # server threads: groups F … S per thread, peer port -> session
-        port2sid = {o.get("port"): sid for sid, o in enumerate(outs)}
+        port2sid = {tuple(o["peer"]): sid for sid, o in enumerate(outs) if o.get("peer")}
         per_thread = {}
         for e in events:
             per_thread.setdefault(e[1], []).append(e)
@@ -814,7 +915,7 @@ class C09(Suite):
             fs = [e for e in evs if e[2] == "F"]
             if not fs or fs[0][3] is None:
                 continue
-            sid = port2sid.get(fs[0][3][1])
+            sid = port2sid.get(tuple(fs[0][3][:2]))
             if sid is None:
                 continue
             cur, gl = None, []
@@ -963,7 +1064,10 @@ class C09(Suite):
             reps = so["replies"]
             if len(reps) != len(sess["frames"]) or any(r is None for r in reps):
                 k = next((i for i, r in enumerate(reps) if r is None), len(reps))
-                return f"session {sid}: no reply to request #{k} (connection closed by the simulator)"
+                peers = ", ".join(f"{i}={o_['peer'][0]}:{o_['peer'][1]}" for i, o_ in enumerate(obs["sessions"])
+                                  if o_.get("peer"))
+                return (f"session {sid}: no reply to request #{k} (connection closed by the simulator); "
+                        f"peers: {peers}")
             for k, (fr, r) in enumerate(zip(sess["frames"], reps)):
                 if not r["ctx_ok"]:
                     return f"session {sid} request #{k}: the reply carries another sender context / session handle"
@@ -1146,8 +1250,12 @@ class C09(Suite):
         fz = "on" if (case.get("fuzz") or case.get("fuzz_store")) else "off"
         if kind == "random" and all(fr["op"] == "mu" for s_ in case["sessions"] for fr in s_["frames"]):
             kind = "bundle-storm"
+        elif kind == "random" and case.get("fuzz") == 0.0 and case.get("peers") and all(
+                s_["client"] == "raw" and s_.get("depth") == 1 for s_ in case["sessions"]):
+            kind = "look-alike-peers"
         kind += " threads=" + ("same-name" if case.get("thread_name") else "default-names")
         kind += " polite=" + ("y" if case.get("polite") else "n")
+        kind += " peers=" + (case.get("peers") or "ephemeral")
         return (f"{kind} sessions={n} si={case['si']:g} fuzz={fz}"
                 f" chaos={'y' if any(s.get('chaos') for s in case['sessions']) else 'n'}"
                 f" access-order-switches={swb}")
